@@ -139,7 +139,11 @@ def _module(draw, ctx):
             if not bbtypes or (len(bbtypes) < 2 and draw(st.booleans())):
                 pin_in = draw(st.lists(st.sampled_from(["d", "clk", "en", "A", "_p"]), min_size=0, max_size=3, unique=True))
                 pin_out = draw(st.lists(st.sampled_from(["q", "qn", "Y"]), min_size=0 if pin_in else 1, max_size=2, unique=True))
-                bbtypes.append([f"cell{len(bbtypes)}", pin_in, pin_out])
+                # cell names are case sensitive: BUF / Nand / AND are cells, not the primitives
+                tn = draw(st.sampled_from([None, None, "BUF", "Nand", "AND", "NOT", "Xor", "INVX1", "dff", "BUFX2", "Or"]))
+                if tn is None or tn in [b[0] for b in bbtypes]:
+                    tn = f"cell{len(bbtypes)}"
+                bbtypes.append([tn, pin_in, pin_out])
             ti = draw(st.integers(0, len(bbtypes) - 1))
             conns = []
             for p in bbtypes[ti][1]:
@@ -206,7 +210,8 @@ def _case(draw, ctx):
     k = draw(st.integers(0, 5))
     if k == 0:
         spec = draw(S.circuit_spec(min_inputs=1, max_inputs=4, min_gates=1, max_gates=8, max_fanin=4, pools=(VNAMES,),
-                                   max_insts=draw(st.sampled_from([0, 1])), unconnected_pins=draw(st.booleans())))
+                                   max_insts=draw(st.sampled_from([0, 1])), unconnected_pins=draw(st.booleans()),
+                                   io_outputs=draw(st.booleans())))
         return {"kind": "writer", "spec": spec}
     mod = draw(_module(ctx))
     ws = draw(st.one_of(st.none(), st.lists(st.integers(0, 7), min_size=5, max_size=40)))
